@@ -20,5 +20,7 @@ for c in $CHECKS; do
 done
 git checkout -- . ; git status --porcelain >> $LOG
 rm -rf /verif/out/replay
+# the evidence files written by the runs above describe the PATCHED tree: restore the committed ones
+git -C /verif checkout -- evidence/ 2>/dev/null
 echo "== done" >> $LOG
 cat $LOG
